@@ -32,10 +32,10 @@ def _dt(t):
 
 dates = st.tuples(st.one_of(st.integers(rd.MAR1_ORD, rd.LAST_ORD), st.integers(rd.MAR1_ORD, 750000), st.sampled_from([737383, 693655, 693656])),
                   st.one_of(st.none(), st.none(), st.integers(0, 86399999))).map(_dt)
-early_dates = st.sampled_from([{'$': 'dt', 'v': '1900-01-01T00:00:00'}, {'$': 'dt', 'v': '1900-01-02T00:00:00'}, {'$': 'dt', 'v': '1900-02-28T12:00:00'}, {'$': 'dt', 'v': '1900-01-01T06:00:00'}])
+early_dates = st.sampled_from([{'$': 'dt', 'v': '9999-12-31T12:00:00'}, {'$': 'dt', 'v': '9999-12-31T23:59:59.999000'}, {'$': 'dt', 'v': '9999-12-31T00:00:00'}, {'$': 'dt', 'v': '1900-01-01T00:00:00'}, {'$': 'dt', 'v': '1900-01-02T00:00:00'}, {'$': 'dt', 'v': '1900-02-28T12:00:00'}, {'$': 'dt', 'v': '1900-01-01T06:00:00'}])
 texts = st.one_of(st.sampled_from(['\U0001f600', '\uff21', '\ue000', '\U00020bb7', 'a\U0001f600', 'a\uffff', '\ufffd', '\U0010ffff']), st.sampled_from(['e\u0301', '\u00e9', 'A\u030a', '\u212b', '\u00c5', 'e\u0301x', '\ufb01', 'fi', '\u1e9b\u0323', 'a\u0308', '\u00e4']),
                   st.sampled_from(['', '2', '-1', '10', '9', 'a', 'A', 'b', 'B', 'ab', 'aB', 'Ab', 'TRUE', 'FALSE', ' ', '!', 'z', 'é', 'É', '0']),
-                  st.sampled_from(['2019-11-19', '2019-11-20', '14/10/1900', '12:30', 'may', '20 Nov 2019', '1900-03-01', '43789', '1e3']),      # text that spells a date or a time is text all the same
+                  st.sampled_from(['2019-11-19', '2019-11-20', '14/10/1900', '12:30', 'may', '20 Nov 2019', '1900-03-01', '43789', '1e3', '\x00', 'a\x00', 'a\x00b', '\x00\x00']),      # text that spells a date or a time is text all the same
                   st.text(st.sampled_from('abAB12 -!é'), max_size=4), st.text(max_size=5))
 scalar = st.one_of(numbers, numbers, dates, dates, dates, early_dates, texts, texts, texts, st.booleans(), st.none())
 
